@@ -80,8 +80,19 @@ def split_str(ctx, name, classes):
     return out
 
 
+def malformed_prelude():
+    """an arbitrary preceding workload: malformed identifiers, refused with an error part-way through the computation"""
+    for f, bad in ((utils.validate_cusip, " 84670207"), (utils.validate_cusip, "0846702 7"), (utils.cusip_checksum, "1234567!"),
+                   (utils.sedol_checksum, "0 6325"), (utils.validate_isin, "US03783 1005")):
+        try:
+            f(bad)
+        except (ValueError, AssertionError):
+            pass
+
+
 def h_cusip(ctx, classes):
     """8 symbolic characters; classes gives the alphabet of each position (d digits, l letters, s specials, a/c any)"""
+    malformed_prelude()
     base = split_str(ctx, "b", classes)
     if ctx.known("C20-cusip-special-chars", ctx.any(['*' == c for c in base] + ['@' == c for c in base] + ['#' == c for c in base])):
         return
@@ -115,6 +126,7 @@ def h_cusip2isin(ctx, classes):
 
 
 def h_sedol(ctx, classes):
+    malformed_prelude()
     base = split_str(ctx, "b", classes)
     chk = utils.sedol_checksum(base)
     ref = ref_sedol(ctx, base)
@@ -142,6 +154,7 @@ def h_isin(ctx, prefix, classes):
         pfx = ctx.enum("prefix", sorted(lib.NUMBERING_AGENCIES.keys()))
     else:
         pfx = prefix
+    malformed_prelude()
     body = split_str(ctx, "b", classes)
     base = pfx + body
     chk = utils.isin_checksum(base)
